@@ -8,16 +8,19 @@ import json, pathlib, shutil, subprocess, sys
 V = pathlib.Path(__file__).resolve().parent.parent
 prop, desc_file, *extra = sys.argv[1:]
 desc = json.loads(pathlib.Path(desc_file).read_text())
-src = pathlib.Path(f"/tmp/mut-{prop}")
+import os
+ROUND = os.environ.get("ROUND", "")            # ROUND=2: /tmp/mut2-<prop>, ids <prop>-r2-N
+src = pathlib.Path(f"/tmp/mut{ROUND}-{prop}")
+TAG = f"r{ROUND}-" if ROUND else ""
 head = subprocess.run(["git", "-C", "/repo", "rev-parse", "--short", "HEAD"], capture_output=True, text=True).stdout.strip()
 for n, d in sorted(desc.items()):
     patch, demo = src / f"patch{n}.diff", src / f"demo{n}.py"
     if not patch.exists():  # re-run of an already ingested change
-        patch, demo = V / "seeded" / f"{prop}-{n}" / "patch.diff", V / "seeded" / f"{prop}-{n}" / "demo.py"
+        patch, demo = V / "seeded" / f"{prop}-{TAG}{n}" / "patch.diff", V / "seeded" / f"{prop}-{TAG}{n}" / "demo.py"
     conf = subprocess.run([str(V / "tools/confirm_seeded.sh"), str(patch), str(demo)], capture_output=True, text=True).stdout
     tr = subprocess.run([str(V / "tools/try_seeded.sh"), str(patch), prop, *extra], capture_output=True, text=True, cwd=V).stdout
     lines = [l for l in tr.splitlines() if l.startswith(("VIOLATION", "check ", "KNOWN"))]
-    out = V / "seeded" / f"{prop}-{n}"
+    out = V / "seeded" / f"{prop}-{TAG}{n}"
     out.mkdir(parents=True, exist_ok=True)
     if patch.parent != out:
         shutil.copy(patch, out / "patch.diff"); shutil.copy(demo, out / "demo.py")
@@ -26,10 +29,10 @@ for n, d in sorted(desc.items()):
     hist = old.get("history", [])
     if old.get("outcome") and old.get("detected") is not None and not (old.get("detected") and old.get("with_failing_input")):
         hist = hist + [{"earlier_outcome": old["outcome"], "note": "machinery strengthened afterwards"}]
-    meta = {"history": hist, "id": f"{prop}-{n}", "property": prop, "change": d["change"], "needs_to_manifest": d["needs"],
+    meta = {"history": hist, "id": f"{prop}-{TAG}{n}", "property": prop, "change": d["change"], "needs_to_manifest": d["needs"],
             "written_by": "fresh sub-agent given only the property text and its own worktree (nothing from /verif)",
             "confirmed": conf.strip().splitlines()[0] if conf.strip() else "confirmation failed",
-            "ran": f"tools/try_seeded.sh seeded/{prop}-{n}/patch.diff {' '.join([prop, *extra])}",
+            "ran": f"tools/try_seeded.sh seeded/{prop}-{TAG}{n}/patch.diff {' '.join([prop, *extra])}",
             "outcome": [l[:300] for l in lines], "base_commit": head,
             "detected": bool(detected), "with_failing_input": any("no-failing-input-found" not in l for l in detected)}
     (out / "meta.json").write_text(json.dumps(meta, indent=1))
